@@ -198,7 +198,8 @@ func funcSplitVec(chunk []KVPair, args []Expression, ctx *ExecuteCtx) ([]any, er
 func funcJoinVec(chunk []KVPair, args []Expression, ctx *ExecuteCtx) ([]any, error) {
 	ret := make([]any, len(chunk))
 	for i := 0; i < len(chunk); i++ {
-		row, err := funcJoin(chunk[i], args, ctx)
+		// one row at a time: the per-row cache of ctx holds the values of another row
+		row, err := funcJoin(chunk[i], args, nil)
 		if err != nil {
 			return nil, err
 		}
@@ -264,7 +265,8 @@ func funcL2DistanceVec(chunk []KVPair, args []Expression, ctx *ExecuteCtx) ([]an
 func funcFloatListVec(chunk []KVPair, args []Expression, ctx *ExecuteCtx) ([]any, error) {
 	ret := make([]any, len(chunk))
 	for i := 0; i < len(chunk); i++ {
-		row, err := funcFloatList(chunk[i], args, ctx)
+		// one row at a time: the per-row cache of ctx holds the values of another row
+		row, err := funcFloatList(chunk[i], args, nil)
 		if err != nil {
 			return nil, err
 		}
@@ -276,7 +278,8 @@ func funcFloatListVec(chunk []KVPair, args []Expression, ctx *ExecuteCtx) ([]any
 func funcIntListVec(chunk []KVPair, args []Expression, ctx *ExecuteCtx) ([]any, error) {
 	ret := make([]any, len(chunk))
 	for i := 0; i < len(chunk); i++ {
-		row, err := funcIntList(chunk[i], args, ctx)
+		// one row at a time: the per-row cache of ctx holds the values of another row
+		row, err := funcIntList(chunk[i], args, nil)
 		if err != nil {
 			return nil, err
 		}
@@ -289,7 +292,7 @@ func funcToListVec(chunk []KVPair, args []Expression, ctx *ExecuteCtx) ([]any, e
 	if len(args) == 0 || len(chunk) == 0 {
 		return nil, nil
 	}
-	first, err := args[0].Execute(chunk[0], ctx)
+	first, err := args[0].Execute(chunk[0], nil)
 	if err != nil {
 		return nil, err
 	}
